@@ -673,6 +673,37 @@ def handshake_oracle(ops, out):
     return None
 
 
+def entry_stability_oracle(ops, out):
+    """C07 (never reset or replace): the server handles frames before timers within a step, and ignores a
+    connection request for an address it tracks, so between two consecutive state dumps an entry can
+    neither change the nonces of its pending state nor fall back from active to pending.  Any such
+    transition means a handshake frame replaced or reset a (tentative) connection."""
+    last = {}
+    for (t, info, term) in ep_events(ops, out):
+        if not term or not term.startswith("st clients="):
+            continue
+        cur = {}
+        for part in term.split()[4:]:
+            if "=" not in part:
+                continue
+            k, v = part.split("=", 1)
+            if k.isdigit() and v[:1] in "PACDF":
+                cur[k] = v
+        if t[0] == "srvdrop":
+            last = cur
+            continue
+        for k, v in cur.items():
+            o = last.get(k)
+            if o is None:
+                continue
+            if o[0] == "P" and v[0] == "P" and o != v:
+                return "pending entry for address %s was replaced without leaving the pending state: %s -> %s (op %s)" % (k, o, v, " ".join(t[:2]))
+            if o[0] == "A" and v[0] == "P":
+                return "active connection for address %s fell back to a pending handshake (op %s)" % (k, " ".join(t[:2]))
+        last = cur
+    return None
+
+
 def target_addr(target, j):
     tg = target.get(j)
     if tg is None:
@@ -718,15 +749,90 @@ def flush_order_oracle(ops, out):
     return None
 
 
+def server_disconnect_oracle(ops, out):
+    """C10 (server side, disconnect attempts): once an entry is Closing (the application asked to disconnect and the
+    request went out at server time t_c), Error(Timeout) for it comes no earlier than t_c + 11 * 2000 ms (the first
+    request, ten resends 2 s apart, and a last 2 s wait), at most 11 requests reach the peer, and the error
+    does come once the steps have run long enough past that budget."""
+    closing_since, reqs, last_state = {}, {}, {}
+    srv_now = 0
+    max_gap, last_step = 0, None
+    for (t, info, term) in ep_events(ops, out):
+        if t[0] in ("pfwd", "precv"):
+            k = t[1]
+            n_d = sum(1 for l in info if l.startswith("dgram S ") and l.split()[4] == "d")
+            if n_d and k in closing_since:
+                reqs[k] = reqs.get(k, 0) + n_d
+                if reqs[k] > 11:
+                    return "server sent %d disconnect requests to address %s in one attempt (budget: 1 + 10 resends)" % (reqs[k], k)
+        if t[0] == "srvstep":
+            srv_now = int(t[1])
+            if last_step is not None:
+                max_gap = max(max_gap, srv_now - last_step)
+            last_step = srv_now
+            for l in info:
+                p = l.split()
+                if l.startswith("ev error ") and p[3] == "timeout" and p[2] in closing_since and last_state.get(p[2], "")[:1] == "C":
+                    if srv_now - closing_since[p[2]] < 22000:
+                        return "server gave up disconnecting address %s after %d ms (< 22000: 10 resends, 2 s apart)" % (p[2], srv_now - closing_since[p[2]])
+        if term and term.startswith("st clients="):
+            cur = {}
+            for part in term.split()[4:]:
+                if "=" in part:
+                    k, v = part.split("=", 1)
+                    if k.isdigit() and v[:1] in "PACDF":
+                        cur[k] = v
+            for k, v in cur.items():
+                if v[0] == "C" and last_state.get(k, "")[:1] != "C":
+                    closing_since[k] = srv_now
+                    reqs[k] = 0
+            for k in list(closing_since):
+                if cur.get(k, "")[:1] != "C":
+                    del closing_since[k]
+            if t[0] == "srvstep":
+                for k, t0 in closing_since.items():
+                    # every resend is rescheduled from the step that performs it, so steps max_gap apart can delay
+                    # each of the 11 waits by at most max_gap
+                    if srv_now - t0 > 11 * (2000 + max_gap) + max_gap:
+                        return "server still disconnecting address %s %d ms after the request (budget 22000 ms, largest step gap %d ms) without reporting Timeout" % (k, srv_now - t0, max_gap)
+            last_state = cur
+    return None
+
+
+def relay_plan(n, drop, dup, swap, seed):
+    """The harness's and driver's relay_plan (hc.rs / main.ml): indices of the datagrams delivered, in order."""
+    x = seed % 2147483648
+    plan = []
+    i = 0
+    while i < n:
+        x = (x * 1103515245 + 12345) % 2147483648
+        r = x % 1000
+        if r < drop:
+            i += 1
+        elif r < drop + dup:
+            plan += [i, i]; i += 1
+        elif r < drop + dup + swap and i + 1 < n:
+            plan += [i + 1, i]; i += 2
+        else:
+            plan.append(i); i += 1
+    return plan
+
+
 def timeout_oracle(ops, out):
     """C10 (client side, observable part): Error(Timeout) of an established client only if nothing was forwarded to
     it during the preceding active_timeout_ms; a handshake times out only after >= 11 transmissions."""
     ev = ep_events(ops, out)
     ato, created, connected, last_rx, syn_count, peer_of = {}, {}, {}, {}, {}, {}
     pending_fwd = {}
+    disc_at, cli_now = {}, {}
     for (t, info, term) in ev:
+        if t[0] == "clidisc":
+            cli_now[t[1]] = True            # the request goes out at the client's next step at the earliest
+        if t[0] == "clistep" and cli_now.get(t[1]) and t[1] not in disc_at:
+            disc_at[t[1]] = int(t[2])
         if t[0] == "clinew":
             j = t[1]
+            disc_at.pop(j, None); cli_now.pop(j, None)
             ato[j] = int(t[9]); created[j] = int(t[10]); connected[j] = None; syn_count[j] = 0
             if t[2] != "srv":
                 peer_of[t[2]] = j
@@ -734,12 +840,16 @@ def timeout_oracle(ops, out):
             k = t[1]
             j = peer_of.get(k)
             if j is not None:
-                fwd = term.split()[2] if term and term.startswith("new fwd") and len(term.split()) > 2 else ""
                 kinds_in = [l.split()[4] for l in info if l.startswith("dgram ")]
                 srcs = [l.split()[1] for l in info if l.startswith("dgram ")]
                 syn_count[j] += sum(1 for s_, kd in zip(srcs, kinds_in) if s_ != "S" and kd == "s")
-                # anything forwarded from the server towards the client will be handled at its next step
-                if any(s_ == "S" for s_ in srcs) and fwd:
+                # anything actually forwarded from the server towards the client will be handled at its next
+                # step (the relay's drop/duplicate plan is a function of the op, recomputed here)
+                plan = relay_plan(len(srcs), int(t[2]), int(t[3]), 0, int(t[4]))
+                fwd = term.split()[2] if term and term.startswith("new fwd") and len(term.split()) > 2 else ""
+                if "".join(kinds_in[i] for i in plan) != fwd:
+                    return None          # the recomputed plan does not explain the relay's report: no verdict
+                if any(srcs[i] == "S" for i in plan):
                     pending_fwd[j] = True
         if t[0] == "psendc":
             j = peer_of.get(t[1])
@@ -754,8 +864,13 @@ def timeout_oracle(ops, out):
                     last_rx[j] = now
                 if l == "ev error 0 timeout":
                     if connected.get(j) is not None:
-                        # established: only after a full active_timeout of silence
-                        if not pending_fwd.get(j) and now - last_rx.get(j, 0) < ato[j]:
+                        # established: only after a full active_timeout of silence — or, once the application has
+                        # asked to disconnect, after the disconnect retry budget (10 resends, 2 s apart)
+                        silent = pending_fwd.get(j) or now - last_rx.get(j, 0) >= ato[j]
+                        gave_up = disc_at.get(j) is not None and now - disc_at[j] >= 20000
+                        if not silent and not gave_up:
+                            if disc_at.get(j) is not None:
+                                return "client %s reported Timeout at %d ms: it handled a frame at %d ms (active_timeout %d) and asked to disconnect only at %d ms (< 20 s ago)" % (j, now, last_rx[j], ato[j], disc_at[j])
                             return "client %s reported Timeout at %d ms although it handled a frame at %d ms (active_timeout %d)" % (j, now, last_rx[j], ato[j])
                     else:
                         if now - created[j] < 22000:
